@@ -271,10 +271,10 @@ var wellFormed = map[string][]string{
 		"REQUEST_COOKIES:'/^s/'", "&ARGS:'k'", "JSON:a.b|ARGS:k"},
 	"pa": {"id:1,phase:2,deny,status:403,msg:'a,b:c',tag:'x'", "pass,allow,block,id:2,t:none,t:lowercase", "id:3,msg:'it\\'s',logdata:'%{tx.0}',setvar:'tx.a=+1',deny",
 		"chain,id:4,ctl:ruleRemoveTargetById=1;ARGS:a,skipAfter:END"},
-	"pao": {"ARGS \"@rx a\\\"b\" \"id:1,deny\"", "ARGS:'x y'|TX \"!@streq q\" \"id:2,msg:'m'\"", "  REQUEST_URI  \"@rx ^/\\\\\"  \"id:3\"  ", "ARGS \"@eq 1\""},
-	"cqs": {"\"@rx a\\\"b\\\\\" rest", "\"\\\\\\\"x\" \"y\""},
-	"op":  {"!@rx  ^a b$", "@streq x", "!@within a b", "! @rx x", "@ rx"},
-	"macro": {"a%{tx.a}b%{request_headers.host}", "%{TX.a.b}-%{unknown.x}%{rule.id}", "%{matched_var}%%{tx.0}{x}"},
+	"pao":    {"ARGS \"@rx a\\\"b\" \"id:1,deny\"", "ARGS:'x y'|TX \"!@streq q\" \"id:2,msg:'m'\"", "  REQUEST_URI  \"@rx ^/\\\\\"  \"id:3\"  ", "ARGS \"@eq 1\""},
+	"cqs":    {"\"@rx a\\\"b\\\\\" rest", "\"\\\\\\\"x\" \"y\""},
+	"op":     {"!@rx  ^a b$", "@streq x", "!@within a b", "! @rx x", "@ rx"},
+	"macro":  {"a%{tx.a}b%{request_headers.host}", "%{TX.a.b}-%{unknown.x}%{rule.id}", "%{matched_var}%%{tx.0}{x}"},
 	"setvar": {"!tx.a", "tx.a=+%{tx.b}", "TX.%{tx.a}_x=-5", "tx.score=%{matched_var}x", "tx.a=+9223372036854775807"},
 }
 
